@@ -83,6 +83,8 @@ class EdgeListVectorizer(BaseEstimator, TransformerMixin):
                             )
                         )
                     }
+                else:
+                    self.row_label_dictionary_ = self.row_label_dictionary
                 self.column_label_dictionary_ = self.row_label_dictionary_
             elif self.row_label_dictionary is None:
                 self.column_label_dictionary_ = self.column_label_dictionary
